@@ -903,8 +903,11 @@ def check_sampler_init(ctx: Ctx, rule: str):
                           construct=fld, key=f"sampler-init:{fld}")
         else:
             sup = [s for s in walk_no_nested(f.node) if isinstance(s, ast.Expr) and isinstance(s.value, ast.Call) and norm(s.value.func) == "super().init_sampling"]
-            args_ok = [s for s in sup if [norm(a) for a in s.value.args] + [f"{k.arg}={norm(k.value)}" for k in s.value.keywords] in
-                       ([p_ref, p_gt], [p_ref, f"{M.fn('AbstractContinuumSampler.init_sampling', rule).params[2]}={p_gt}"])]
+            base_ = M.fn('AbstractContinuumSampler.init_sampling', rule)
+            def _same_args(c):
+                ba = bound_args(c, base_)
+                return ba is not None and len(base_.params) >= 3 and norm(ba.get(base_.params[1])) == p_ref and norm(ba.get(base_.params[2])) == p_gt
+            args_ok = [s for s in sup if _same_args(s.value)]
             if len(args_ok) != len(sup):
                 ctx.undecided(rule, f, sup[0], f"{f.qualname}: super().init_sampling is not called with this call's (reference, ground truth) (not a verdict)",
                               key=f"sampler-init:{f.qualname}")
